@@ -391,12 +391,16 @@ func formatInto(sb *strings.Builder, format string, args []string) (int, error) 
 						farg = int(n)
 					} else {
 						farg = uint(n)
+						// unlike Go, C has no sign for unsigned conversions
+						fmts = dropFlags(fmts, "+ ")
 					}
 					if c == 'i' || c == 'u' {
 						c = 'd'
 					}
 				} else {
 					farg = arg
+					// unlike Go, C pads strings with spaces only
+					fmts = dropFlags(fmts, "0")
 				}
 				if farg != nil {
 					fmts = append(fmts, c)
@@ -418,6 +422,19 @@ func formatInto(sb *strings.Builder, format string, args []string) (int, error) 
 		return 0, fmt.Errorf("missing format char")
 	}
 	return initialArgs - len(args), nil
+}
+
+// dropFlags removes the given flag characters from the start of a directive
+// such as "%+05", leaving its width alone.
+func dropFlags(fmts []byte, flags string) []byte {
+	out := fmts[:1]
+	i := 1
+	for ; i < len(fmts) && strings.IndexByte("+- 0", fmts[i]) >= 0; i++ {
+		if strings.IndexByte(flags, fmts[i]) < 0 {
+			out = append(out, fmts[i])
+		}
+	}
+	return append(out, fmts[i:]...)
 }
 
 func (cfg *Config) fieldJoin(parts []fieldPart) string {
